@@ -439,6 +439,13 @@ func groupConstraintsIntoIntervals(constraints []constraint) ([]interval, error)
 
 	// Excludes are handled separately in the contains function, not as intervals
 
+	// Comparators that alternate between lower and upper bounds (in version order) denote,
+	// per the VERS specification, a union of intervals: an optional leading upper bound,
+	// lower/upper pairs, and an optional trailing lower bound.
+	if alternating, ok := alternatingIntervals(constraints); ok {
+		return append(intervals, alternating...), nil
+	}
+
 	// Handle range constraints (lower/upper bounds)
 	if len(lowerBounds) > 0 || len(upperBounds) > 0 {
 		// For VERS spec compliance, we need to analyze the constraint pattern:
@@ -522,6 +529,55 @@ func groupConstraintsIntoIntervals(constraints []constraint) ([]interval, error)
 	}
 
 	return intervals, nil
+}
+
+// alternatingIntervals converts version-sorted constraints whose lower and upper bounds
+// strictly alternate into the intervals they denote. It reports false if two bounds of the
+// same kind follow each other (or if there are no bounds), leaving such input to the caller.
+func alternatingIntervals(constraints []constraint) ([]interval, bool) {
+	var intervals []interval
+	var pendingLower *constraint
+	sawBound := false
+	previousWasLower := false
+
+	for i := range constraints {
+		c := &constraints[i]
+		isLower := c.operator == ">=" || c.operator == ">"
+		isUpper := c.operator == "<=" || c.operator == "<"
+		if !isLower && !isUpper {
+			continue
+		}
+		if sawBound && isLower == previousWasLower {
+			return nil, false
+		}
+		sawBound = true
+		previousWasLower = isLower
+
+		if isLower {
+			pendingLower = c
+			continue
+		}
+
+		current := interval{
+			upper:          c.version,
+			upperInclusive: c.operator == "<=",
+		}
+		if pendingLower != nil {
+			current.lower = pendingLower.version
+			current.lowerInclusive = pendingLower.operator == ">="
+			pendingLower = nil
+		}
+		intervals = append(intervals, current)
+	}
+
+	if pendingLower != nil {
+		intervals = append(intervals, interval{
+			lower:          pendingLower.version,
+			lowerInclusive: pendingLower.operator == ">=",
+		})
+	}
+
+	return intervals, sawBound
 }
 
 // shouldMergeConstraints determines whether constraints should be merged (most restrictive)
